@@ -4,7 +4,10 @@
 #[path = "../names.rs"]
 mod names;
 
-use domain::base::name::{Name, NameBuilder, RelativeName, ToLabelIter, ToName, ToRelativeName, UncertainName};
+use domain::base::name::{
+    FlattenInto, Name, NameBuilder, ParsedName, RelativeName, ToLabelIter, ToName, ToRelativeName, UncertainName,
+};
+use domain::rdata::ZoneRecordData;
 use domain::base::scan::IterScanner;
 use domain::zonefile::inplace::{Entry, Zonefile};
 use names::*;
@@ -400,6 +403,92 @@ fn zone_case(input: &Value) -> Value {
     }
 }
 
+/// a name around the limits, written plainly or with escapes, read by the
+/// zone-file scanner as owner or inside NS / MX record data
+fn zscan_case(input: &Value) -> Value {
+    let name = string_of(&input["text"]);
+    let text = match input["place"].as_str().unwrap_or("") {
+        "owner" => format!("$ORIGIN example.\n{} 3600 IN A 192.0.2.1\n", name),
+        "ns" => format!("$ORIGIN example.\nx 3600 IN NS {}\n", name),
+        _ => format!("$ORIGIN example.\nx 3600 IN MX 10 {}\n", name),
+    };
+    let mut zf = Zonefile::from(text.as_str());
+    loop {
+        match zf.next_entry() {
+            Ok(Some(Entry::Record(rec))) => {
+                let n: N = match input["place"].as_str().unwrap_or("") {
+                    "owner" => rec.owner().to_name(),
+                    "ns" => match rec.data() {
+                        ZoneRecordData::Ns(ns) => ns.nsdname().to_name(),
+                        _ => return json!(["wrong_record_type", [], 0]),
+                    },
+                    _ => match rec.data() {
+                        ZoneRecordData::Mx(mx) => mx.exchange().to_name(),
+                        _ => return json!(["wrong_record_type", [], 0]),
+                    },
+                };
+                return json!(["abs", json_bytes(n.as_slice()), valid_abs(n.as_slice()) as u8]);
+            }
+            Ok(Some(_)) => continue,
+            Ok(None) | Err(_) => return json!(["err", [], 1]),
+        }
+    }
+}
+
+/// a name read from a compressed rendering and converted to the other
+/// representations
+fn parsed_case(input: &Value) -> Value {
+    let msg = bytes_of(&input["msg"]);
+    let pos = input["pos"].as_u64().unwrap_or(0) as usize;
+    let mut parser = Parser::from_ref(msg.as_slice());
+    if parser.advance(pos).is_err() {
+        return json!({"bad_case": true});
+    }
+    let pn = match ParsedName::parse(&mut parser) {
+        Ok(pn) => pn,
+        Err(_) => return json!({"ok": false}),
+    };
+    let mut labels = vec![];
+    for l in pn.iter() {
+        labels.push(l.len() as u8);
+        labels.extend_from_slice(l.as_slice());
+    }
+    let mut composed: Vec<u8> = vec![];
+    let compose_ok = pn.compose(&mut composed).is_ok();
+    let flat: N = pn.flatten_into();
+    let toname: N = pn.to_name();
+    let afs = match pn.as_flat_slice() {
+        None => "ok",
+        Some(sl) if sl == labels.as_slice() => "ok",
+        Some(_) => "flat_slice_is_not_the_name",
+    };
+    let (eq, cmp, disp) = match Name::from_octets(labels.clone()) {
+        Ok(n) => (
+            pn == n && n == pn && pn.name_eq(&n) && n.name_eq(&pn),
+            pn.name_cmp(&n) == std::cmp::Ordering::Equal
+                && n.name_cmp(&pn) == std::cmp::Ordering::Equal
+                && pn.cmp(&pn.clone()) == std::cmp::Ordering::Equal,
+            // text round trip of the parsed name
+            N::from_str(&pn.to_string()).map(|b| b.as_slice() == n.as_slice()).unwrap_or(false),
+        ),
+        Err(_) => (false, false, false),
+    };
+    let chk = |o: &[u8]| if valid_abs(o) { json_bytes(o) } else { json!(["invalid", json_bytes(o)]) };
+    json!({
+        "ok": true,
+        "labels": chk(&labels),
+        "compose": if compose_ok { chk(&composed) } else { json!("err") },
+        "flat": chk(flat.as_slice()),
+        "toname": chk(toname.as_slice()),
+        "afs": afs,
+        "eq": eq,
+        "cmp": cmp,
+        "disp": disp,
+        "len": pn.compose_len(),
+        "end": parser.pos(),
+    })
+}
+
 fn repr(k: &str, input: &Value) -> Value {
     match k {
         "name" => name_case(input),
@@ -409,6 +498,8 @@ fn repr(k: &str, input: &Value) -> Value {
         "shape_wire" => shape_wire(input),
         "shape_chain" => shape_chain(input),
         "zone" => zone_case(input),
+        "zscan" => zscan_case(input),
+        "parsed" => parsed_case(input),
         _ => json!({"bad_case": true}),
     }
 }
